@@ -7,4 +7,4 @@ mkdir -p work/partials work/replays evidence
 ./check sync
 cd harness
 cargo build --offline 2>&1 | tail -3
-cargo build --offline -p vsim --profile noassert 2>&1 | tail -1
+cargo build --offline -p vsim -p vnative --profile noassert 2>&1 | tail -1
